@@ -141,11 +141,10 @@ func ExpectTo(b *MsgB, mdl *model.Model, sv reflect.Value) *Node {
 		if !ok {
 			// nil nullable-embedded parent, or inactive / unset oneof branch
 			n := nullOf(ab, mdl)
-			if ab.Sub != nil && a.Card == "" && !a.Pointer && a.Oneof == "" {
-				// a message held by value below a nil embedded parent: "children of a nil embedded
-				// message are null" and "non-nullable message attributes are never null" both apply,
-				// so its null-ness is not asserted
-				n.NullDC = true
+			if ab.Sub != nil && a.Card == "" && !a.Pointer && a.Oneof == "" && ab.UnderNilEmbed(sv) {
+				// a message held by value below a nil embedded parent: C20 says "non-nullable message
+				// attributes are never null" without exception, so it is rendered from its zero value
+				n = ExpectTo(ab.Sub, mdl, reflect.Zero(ab.Typ))
 			}
 			out.Attrs[a.Name] = n
 			continue
